@@ -253,7 +253,7 @@ def run(ctx):
     r2 = ctx.rule("C01-R2", "request_more / set_chunk_size / request / is_complete are not called from parser code", floor=1)
     run_r2(ctx, r2)
     from .c09 import run_r1 as c09_r1
-    r3 = ctx.rule("C01-R3", "Interrupted is handled only inside request_more, as a retry that touches no state (shared with C09-R1)", floor=10)
+    r3 = ctx.rule("C01-R3", "Interrupted is handled only inside request_more, as a retry that touches no state (shared with C09-R1)", floor=8)
     c09_r1(ctx, r3)
     from .c02 import run_r2 as c02_r2
     r4 = ctx.rule("C01-R4", "position and mark are conserved across refills and realignment (shared with C02-R2; error locations)", floor=25)
